@@ -36,11 +36,21 @@ THEOREMS = [
     "C02_all_early_witness_twice",
     "C02_all_never_early_repaired",
     "C02_all_round_repaired",
+    "C02_relabel_midround_witness",
+    "C02_callback_outcomes_are_histories",
+    "C02_all_never_early_any_outcome",
+    "C02_all_round_any_outcome",
+    "C02_all_resets_any_outcome",
+    "C02_all_complete_fires_any_outcome",
+    "C02_reset_after_callback_witness",
     "C02_refines_queue_from",
     "C02_refines_queue",
     "C02_refines_queue_values",
     "C02_value",
     "C02_flow_early_witness",
+    "C02_rerun_refines_queue",
+    "C02_rerun_stale_memory_witness",
+    "C02_two_composites_refine",
     "C02_macro_edges_kept",
     "C02_macro_reorders_witness",
     "C02_macro_order_repaired",
@@ -48,8 +58,8 @@ THEOREMS = [
 ]
 RULE = (
     "trigger level: seeded random histories (quick) / every history up to length 6 over 3 emitters and the "
-    "10-event alphabet {arrive e, connect e, disconnect e, poke} plus every history up to length 5 with two "
-    "equally labelled emitters (thorough), all sugar forms of connecting, emitter calls and real emitter runs "
+    "10-event alphabet {arrive e, connect e, disconnect e, poke} plus every history up to length 4 with two "
+    "equally labelled emitters and every scripted-callback history up to length 4 over 2 emitters (thorough), all sugar forms of connecting, emitter calls and real emitter runs "
     "(ran / failed); flow level: templates (chains, diamonds with all-of joins, If branches, accumulate-then-"
     "branch, counter loops that exit, failure handlers) with random parameters and random extra/missing signal "
     "edges, plus random signal graphs, kept when the plain interpreter terminates within 150 child runs; each hosted "
@@ -74,9 +84,9 @@ ASSUMPTIONS = [
 EXHAUSTIVE = {"thorough": True}
 EXPLANATION = (
     "thorough runs every trigger history up to length 6 over 3 distinctly labelled emitters "
-    "(1111110 histories), every history up to length 5 with two equally labelled emitters (111110) and every "
-    "history up to length 6 over 2 sibling emitters inside a workflow (137256) on the real channel objects; "
-    "flows are sampled"
+    "(1111110 histories), every history up to length 4 with two equally labelled emitters (11110), every "
+    "history up to length 5 over 2 sibling emitters inside a workflow (19607) and every script of raising / re-entering "
+    "callbacks up to length 4 over 2 emitters (41370) on the real channel objects; flows are sampled"
 )
 
 CH = ["ran", "failed", "true", "false"]
@@ -232,9 +242,18 @@ def _trig_do(N, ev, ems, ra, rb):
             N.FAIL.setdefault(tag, set()).add(N.ATTEMPTS.get(tag, 0) + 1)
         try:
             ems[e].run()
-        except N.Boom:
-            pass
-        ems[e].failed = False
+        finally:
+            ems[e].failed = False
+    elif kind == "unready":  # the all-of owner loses an input value: its run() refuses (ReadinessError)
+        from pyiron_workflow.channels import NOT_DATA
+
+        ra.inputs.a.value = NOT_DATA
+    elif kind == "ready":
+        ra.inputs.a.value = "d"
+    elif kind == "failnext":  # the all-of owner's function raises at its next call; afterwards the owner is failed
+        N.FAIL.setdefault(R_ACC, set()).add(N.ATTEMPTS.get(R_ACC, 0) + 1)
+    elif kind == "heal":
+        ra.failed = False
     else:
         raise ValueError(kind)
 
@@ -255,6 +274,8 @@ def _trig_model_line(ev):
         return f"emit {_chan(ev[1], ev[2])}"
     if kind == "run":
         return f"emit {_chan(ev[1], 1 if ev[2] else 0)}"
+    if kind in ("unready", "ready", "failnext", "heal"):
+        return None  # only changes what the owner's callback does; the (pinned) trigger does not care
     raise ValueError(kind)
 
 
@@ -268,8 +289,31 @@ def _run_trig(case):
         for c in (0, 1):
             chan_of[id(n.signals.output[CH[c]])] = _chan(e, c)
             lab_of[f"L{case['labels'][e]}__{CH[c]}"] = 2 * case["labels"][e] + c
+    from pyiron_workflow.node import Node
+
     obs, fires = [], []
     stats = {"trig_histories": 0, "trig_events": 0, "acc_fired": 0, "acc_withheld": 0, "any_fired": 0}
+    both = 0
+    invoked = []  # which owner's run() was invoked (a refused or failing run is an invocation, too)
+    orig_run = Node.run
+
+    def counting_run(self, *a, **k):
+        if self is ra:
+            invoked.append(R_ACC)
+        elif self is rb:
+            invoked.append(R_ANY)
+        return orig_run(self, *a, **k)
+
+    Node.run = counting_run
+    try:
+        return _run_trig_hists(case, N, ems, ra, rb, acc, anyc, chan_of, lab_of, obs, fires, stats, invoked)
+    finally:
+        Node.run = orig_run
+
+
+def _run_trig_hists(case, N, ems, ra, rb, acc, anyc, chan_of, lab_of, obs, fires, stats, invoked):
+    from pyiron_workflow.mixin.run import ReadinessError
+
     both = 0
     for hist in case["hists"]:
         acc.disconnect_all()
@@ -277,18 +321,27 @@ def _run_trig(case):
         acc.reset()
         for n in ems:
             n.failed = False
+        ra.failed = False
+        ra.inputs.a.value = "d"
         obs.append("hist")
         hf = []
         stats["trig_histories"] += 1
         withheld = fired = False
         for ev in hist:
-            mark = len(N.CALL_LOG)
+            if ev[0] in ("unready", "ready", "failnext", "heal"):
+                _trig_do(N, ev, ems, ra, rb)
+                hf.append((0, 0))
+                stats[f"ev:{ev[0]}"] = stats.get(f"ev:{ev[0]}", 0) + 1
+                continue
+            mark = len(invoked)
             err = None
             try:
                 _trig_do(N, ev, ems, ra, rb)
+            except (ReadinessError, N.Boom):
+                stats["owner_callback_raised"] = stats.get("owner_callback_raised", 0) + 1
             except Exception as e:  # noqa: BLE001
                 err = type(e).__name__
-            new = [t for (t, _a) in N.CALL_LOG[mark:]]
+            new = invoked[mark:]
             fa, fc = new.count(R_ANY), new.count(R_ACC)
             hf.append((fa, fc))
             # pinned tree: a set of scoped-label strings; repaired tree: a set of channel objects
@@ -324,7 +377,7 @@ def _trig_model_input(case):
     body = []
     for hist in case["hists"]:
         body.append("thist")
-        body.extend(_trig_model_line(ev) for ev in hist)
+        body.extend(l for l in (_trig_model_line(ev) for ev in hist) if l is not None)
     lines = []
     for e, l in enumerate(case["labels"]):
         for c in (0, 1):
@@ -408,6 +461,221 @@ def _trig_oracle(case, impl):
         if fails:
             break
     return fails
+
+
+# ============================================================================== scripted callbacks (bare trigger)
+#
+# An act is [event, boom, inner]: event = ["A", e] arrive | ["P"] poke | ["C", e, via] connect | ["D", e, via] disconnect
+# on a REAL AccumulatingInputSignal whose owner is a stub with a scripted callback: if the event fires the callback,
+# the callback performs the inner acts on the same trigger (depth-first re-entry) and then raises iff boom.
+
+
+class _Boom(Exception):
+    pass
+
+
+class _StubOwner:
+    """the minimum a signal channel wants from its owner; `cb` follows the script"""
+
+    def __init__(self, label):
+        self.label = label
+        self.full_label = "/" + label
+        self.world = None
+
+    def cb(self):
+        self.world.callback()
+
+
+class _CbWorld:
+    def __init__(self, labels):
+        from pyiron_workflow.channels import AccumulatingInputSignal, OutputSignal
+
+        self.owner = _StubOwner("owner")
+        self.owner.world = self
+        self.trigger = AccumulatingInputSignal("trigger", self.owner, self.owner.cb)
+        self.sigs = [OutputSignal("ran", _StubOwner(f"L{l}")) for l in labels]
+        self.labels = labels
+        self.evs, self.fires = [], []
+        self.next = None
+
+    def callback(self):
+        idx, boom, inner = self.next
+        self.fires[idx] += 1
+        for act in inner:
+            self.perform(act)
+        if boom:
+            raise _Boom()
+
+    def perform(self, act):
+        ev, boom, inner = act
+        self.evs.append(ev)
+        self.fires.append(0)
+        self.next = (len(self.fires) - 1, boom, inner)
+        k = ev[0]
+        if k == "A":
+            self.trigger(self.sigs[ev[1]])
+        elif k == "P":
+            self.trigger()
+        elif k == "C":
+            sig = self.sigs[ev[1]]
+            via = ev[2]
+            if via == "t.connect":
+                self.trigger.connect(sig)
+            elif via == "s.connect":
+                sig.connect(self.trigger)
+            elif via == "s>>t":
+                sig >> self.trigger
+            else:
+                self.trigger << sig
+        elif k == "D":
+            sig = self.sigs[ev[1]]
+            if ev[2] == "t.disconnect":
+                self.trigger.disconnect(sig)
+            else:
+                sig.disconnect(self.trigger)
+        else:
+            raise ValueError(k)
+
+
+def _ev_tok(ev):
+    return ev[0] if ev[0] == "P" else f"{ev[0]}{ev[1]}"
+
+
+def _act_toks(act):
+    ev, boom, inner = act
+    toks = [_ev_tok(ev)]
+    if boom:
+        toks.append("!")
+    if inner:
+        toks.append("[")
+        for a in inner:
+            toks += _act_toks(a)
+        toks.append("]")
+    return toks
+
+
+def _run_cbtrig(case):
+    obs, traces = [], []
+    stats = {"cb_histories": 0, "cb_events": 0, "cb_fired": 0, "cb_raised": 0, "cb_reentered": 0}
+    for script in case["scripts"]:
+        w = _CbWorld(case["labels"])
+        chan_of = {id(sg): e for e, sg in enumerate(w.sigs)}
+        lab_of = {f"L{l}__ran": l for l in case["labels"]}
+        obs.append("hist")
+        tr = []
+        stats["cb_histories"] += 1
+        for act in script:
+            m = len(w.evs)
+            raised = 0
+            err = ""
+            try:
+                w.perform(act)
+            except _Boom:
+                raised = 1
+            except Exception as e:  # noqa: BLE001
+                err = f" !{type(e).__name__}"
+            evs, fl = w.evs[m:], w.fires[m:]
+            rec = sorted(lab_of.get(x, 999) if isinstance(x, str) else chan_of.get(id(x), 99)
+                         for x in w.trigger.received_signals)
+            obs.append(f"evs {dash([_ev_tok(e) for e in evs])} | fires {''.join(str(min(f, 9)) for f in fl)} | raised {raised} | "
+                       f"acc {nats([chan_of.get(id(c), 99) for c in w.trigger.connections])} {nats(rec)}{err}")
+            tr.append({"evs": evs, "fires": fl, "raised": raised})
+            stats["cb_events"] += len(evs)
+            stats["cb_fired"] += sum(fl)
+            stats["cb_raised"] += raised
+            stats["cb_reentered"] += 1 if len(evs) > 1 else 0
+        traces.append(tr)
+    return {"obs": obs, "traces": traces, "stats": stats}
+
+
+def _cbtrig_model_input(case):
+    """pinned (label-keyed) variant, then — after `reset` — the identity-keyed one, as for `trig`"""
+    body = []
+    for script in case["scripts"]:
+        body.append("thist")
+        for act in script:
+            body.append("script " + " ".join(_act_toks(act)))
+    lines = [f"lab {e} {l}" for e, l in enumerate(case["labels"])]
+    return lines + body + ["reset"] + body
+
+
+def _cbtrig_oracle(case, impl):
+    """identity bookkeeping over the events that were really performed, in the order they were performed; a firing
+    starts the fresh round at once — what its callback does or hears already belongs to the next round"""
+    fails = []
+    labels = case["labels"]
+    for hi, tr in enumerate(impl["traces"]):
+        conn, arrived = set(), set()
+        k = 0
+        for top in tr:
+            for ev, f in zip(top["evs"], top["fires"]):
+                kind = ev[0]
+                if kind == "C":
+                    conn.add(ev[1])
+                elif kind == "D":
+                    conn.discard(ev[1])
+                if kind in ("C", "D"):
+                    if f:
+                        fails.append({"clause": "all-spurious", "detail": f"history {hi} event {k} {ev}: callback ran at a non-call",
+                                      "signature": {"clause": "all-spurious", "trigger": kind, "scripted": True}})
+                    k += 1
+                    continue
+                if kind == "A":
+                    arrived.add(ev[1])
+                complete = conn <= arrived
+                where = f"history {hi} performed event {k} {ev} (performed so far: {[_ev_tok(e) for t in tr for e in t['evs']][:k + 1]})"
+                if f > 1:
+                    fails.append({"clause": "all-double", "detail": where, "signature": {"clause": "all-double", "trigger": kind, "scripted": True}})
+                elif f == 1 and not complete:
+                    missing = sorted(conn - arrived)
+                    clash = any(labels[m] == labels[a] and m != a for m in missing for a in arrived)
+                    fails.append({"clause": "all-never-early",
+                                  "detail": f"{where}: callback ran although connected emitters {missing} have not signalled since the "
+                                            f"previous firing (arrived {sorted(arrived)}, labels {labels})",
+                                  "signature": {"clause": "all-never-early", "trigger": kind, "label_clash": clash, "parent": False,
+                                                "scripted": True}})
+                elif f == 0 and complete:
+                    fails.append({"clause": "all-complete-fires",
+                                  "detail": f"{where}: every connected emitter {sorted(conn)} has signalled since the previous firing but "
+                                            f"the callback did not run",
+                                  "signature": {"clause": "all-complete-fires", "trigger": kind, "scripted": True}})
+                if f >= 1:
+                    arrived = set()
+                k += 1
+        if fails:
+            break
+    return fails
+
+
+def _rand_act(rng, n_em, depth):
+    r = rng.random()
+    if r < 0.55:
+        ev = ["A", rng.randrange(n_em)]
+    elif r < 0.65:
+        ev = ["P"]
+    elif r < 0.85:
+        ev = ["C", rng.randrange(n_em), rng.choice(["t.connect", "s.connect", "s>>t", "t<<s"])]
+    else:
+        ev = ["D", rng.randrange(n_em), rng.choice(["t.disconnect", "s.disconnect"])]
+    boom = ev[0] in ("A", "P") and rng.random() < 0.3
+    inner = []
+    if ev[0] in ("A", "P") and depth < 3 and rng.random() < 0.35:
+        inner = [_rand_act(rng, n_em, depth + 1) for _ in range(rng.randint(1, 3))]
+    return [ev, boom, inner]
+
+
+def _exhaustive_scripts(n_em, max_len):
+    """every top-level script up to max_len over {arrive e, arrive e + raise, arrive e + [re-enter arrive e'], connect e,
+    disconnect e, poke, poke + raise}"""
+    alpha = [[["P"], False, []], [["P"], True, []]]
+    for e in range(n_em):
+        alpha += [[["A", e], False, []], [["A", e], True, []], [["C", e, "t.connect"], False, []],
+                  [["D", e, "t.disconnect"], False, []]]
+        for e2 in range(n_em):
+            alpha.append([["A", e], False, [[["A", e2], False, []]]])
+    for L in range(1, max_len + 1):
+        for h in itertools.product(alpha, repeat=L):
+            yield [a for a in h]
 
 
 # ============================================================================== flow level
@@ -516,77 +784,96 @@ def _run_flow(case):
         raise Runaway()
 
     hyp = _wf_hypothesis(ns)
-    by_label_early = {nd.label: i for i, nd in enumerate(ns)}
-    outcome, errs = "ok", []
-    Node.run = run
-    Composite.register_child_starting = starting
-    comp_mod.sleep = no_sleep
-    try:
-        wf.run()
-    except FailedChildError as e:
-        outcome = "failedchild"
-        errs = sorted({by_label_early.get(m, 999) for m in re.findall(r"'/wf/(\w+)(?:\.\w+)?': ", str(e))})
-    except Runaway:
-        outcome = "runaway"
-    except Exception as e:  # noqa: BLE001
-        outcome = f"raised:{type(e).__name__}:{str(e)[:200]}"
-    finally:
-        Node.run = orig_run
-        Composite.register_child_starting = orig_starting
-        comp_mod.sleep = orig_sleep
-
     n = len(ns)
+    n_case = len(case["nodes"])
     by_label = {nd.label: i for i, nd in enumerate(ns)}
     lab = lambda l: by_label.get(l, 999)  # noqa: E731
-    exec_log = [lab(l) for l in wf.provenance_by_execution]
-    done_log = [lab(l) for l in wf.provenance_by_completion]
-    calls = [(t, [canon(x) for x in a]) for (t, a) in N.CALL_LOG]
-    n_case = len(case["nodes"])
-    outs = [canon(ns[i].outputs[N.OUT[case["nodes"][i]["kind"]]].value if i < n_case
-                  else ns[i].outputs.user_input.value) for i in range(n)]
-    failed = [i for i in range(n) if ns[i].failed]
     labid = {}
     for i, nd in enumerate(ns):
         for c, name in enumerate(CH):
             labid[f"{nd.label}__{name}"] = _sig(i, c)
-    rec = []
-    for i in range(n):
-        a = ns[i].signals.input.accumulate_and_run
-        if len(a.connections) > 0:
-            rec.append(f"{i}:{nats(sorted(labid.get(s if isinstance(s, str) else s.scoped_label, 9999) for s in a.received_signals))}")
-    obs = [
-        f"wf {1 if hyp else 0}",
-        f"fired {nats(fired)}",
-        f"exec {nats(exec_log)}",
-        f"done {nats(done_log)}",
-        "calls " + dash([f"{t}({','.join(a)})" for t, a in calls]),
-        "out " + dash([f"{i}={outs[i]}" for i in range(n)]),
-        f"failed {nats(failed)}",
-        f"errs {nats(errs)}",
-        f"queue {len(wf.signal_queue)}",
-        "rec " + dash(rec),
-    ]
-    if outcome not in ("ok", "failedchild"):
-        obs.append(f"outcome {outcome}")
+
+    def one_run():
+        """one `run()` of the composite and what can be seen afterwards"""
+        del fired[:]
+        starts[0] = 0
+        mark = len(N.CALL_LOG)
+        outcome, errs = "ok", []
+        Node.run = run
+        Composite.register_child_starting = starting
+        comp_mod.sleep = no_sleep
+        try:
+            wf.run()
+        except FailedChildError as e:
+            outcome = "failedchild"
+            errs = sorted({by_label.get(m, 999) for m in re.findall(r"'/wf/(\w+)(?:\.\w+)?': ", str(e))})
+        except Runaway:
+            outcome = "runaway"
+        except Exception as e:  # noqa: BLE001
+            outcome = f"raised:{type(e).__name__}:{str(e)[:200]}"
+        finally:
+            Node.run = orig_run
+            Composite.register_child_starting = orig_starting
+            comp_mod.sleep = orig_sleep
+        exec_log = [lab(l) for l in wf.provenance_by_execution]
+        done_log = [lab(l) for l in wf.provenance_by_completion]
+        calls = [(t, [canon(x) for x in a]) for (t, a) in N.CALL_LOG[mark:]]
+        outs = [canon(ns[i].outputs[N.OUT[case["nodes"][i]["kind"]]].value if i < n_case
+                      else ns[i].outputs.user_input.value) for i in range(n)]
+        failed = [i for i in range(n) if ns[i].failed]
+        rec = []
+        for i in range(n):
+            a = ns[i].signals.input.accumulate_and_run
+            if len(a.connections) > 0:
+                rec.append(f"{i}:{nats(sorted(labid.get(x if isinstance(x, str) else x.scoped_label, 9999) for x in a.received_signals))}")
+        obs = [
+            f"wf {1 if hyp else 0}",
+            f"fired {nats(fired)}",
+            f"exec {nats(exec_log)}",
+            f"done {nats(done_log)}",
+            "calls " + dash([f"{t}({','.join(a)})" for t, a in calls]),
+            "out " + dash([f"{i}={outs[i]}" for i in range(n)]),
+            f"failed {nats(failed)}",
+            f"errs {nats(errs)}",
+            f"queue {len(wf.signal_queue)}",
+            "rec " + dash(rec),
+        ]
+        if outcome not in ("ok", "failedchild"):
+            obs.append(f"outcome {outcome}")
+        if (outcome == "failedchild") != bool(errs):
+            obs.append(f"outcome {outcome} but errs {errs}")
+        return {"obs": obs, "outcome": outcome, "exec": exec_log, "calls": calls, "outs": outs, "failed": failed,
+                "refused": len(fired) - len(exec_log), "running": [i for i in range(n) if ns[i].running]}
+
+    runs = [one_run()]
+    obs = list(runs[0]["obs"])
     if pre_fired:
         obs.append(f"pre-arrivals fired {pre_fired} (generator bug: they must not complete a round)")
-    if (outcome == "failedchild") != bool(errs):
-        obs.append(f"outcome {outcome} but errs {errs}")
+    for again in case.get("rerun", []):
+        # the user repairs what failed (clears `failed` on these children and on the composite) and runs it again
+        for i in again["heal"]:
+            ns[i].failed = False
+        wf.failed = False
+        r = one_run()
+        runs.append(r)
+        obs += ["rerun", *r["obs"]]
+    first, last = runs[0], runs[-1]
     kinds = [nd["kind"] for nd in case["nodes"]]
     stats = {
         "flows": 1,
         f"flow_host:{case.get('host', 'workflow')}{'+ui' if case.get('ui') else ''}": 1,
-        "flow_child_runs": len(exec_log),
-        "flow_loops": 1 if len(exec_log) > len(set(exec_log)) else 0,
+        "flow_child_runs": sum(len(r["exec"]) for r in runs),
+        "flow_loops": 1 if len(first["exec"]) > len(set(first["exec"])) else 0,
         "flow_with_if": 1 if "if" in kinds else 0,
         "flow_with_allof": 1 if any(a for (_s, _c, _d, a, _v) in case["sig"]) else 0,
-        "flow_with_failure": 1 if failed else 0,
-        "flow_refused_runs": len(fired) - len(exec_log),
+        "flow_with_failure": 1 if first["failed"] else 0,
+        "flow_refused_runs": sum(r["refused"] for r in runs),
         "flow_with_stale_trigger_memory": 1 if case.get("pre") else 0,
-        f"flow_outcome:{outcome.split(':')[0]}": 1,
+        "flow_reruns_after_failure": len(runs) - 1,
+        f"flow_outcome:{first['outcome'].split(':')[0]}": 1,
     }
-    return {"obs": obs, "outcome": outcome, "exec": exec_log, "calls": calls, "outs": outs, "stats": stats,
-            "running": [i for i in range(n) if ns[i].running]}
+    return {"obs": obs, "outcome": first["outcome"], "exec": first["exec"], "calls": first["calls"], "outs": first["outs"],
+            "runs": runs, "stats": stats, "running": last["running"]}
 
 
 def _flow_model_lines(case):
@@ -611,12 +898,14 @@ def _flow_model_lines(case):
 
 def _flow_model_input(case):
     lines = _flow_model_lines(case)
+    again = [f"rerun {MODEL_FUEL} " + " ".join(str(i) for i in r["heal"]) for r in case.get("rerun", [])]
+    again = [a.strip() for a in again]
     if case.get("host") != "macro":
-        return lines + [f"run {MODEL_FUEL}"]
+        return lines + [f"run {MODEL_FUEL}"] + again
     ui = f" {len(case['nodes'])}" if case.get("ui") else ""
     # the macro constructor's treatment of the hand-made wiring: as pinned, then — after `reset` — as repaired by
     # fixes/C02-macro-keep-signal-order.patch; `diff` accepts agreement with either
-    return (lines + [f"mconfig P{ui}", f"run {MODEL_FUEL}", "reset"] + lines + [f"mconfig R{ui}", f"run {MODEL_FUEL}"])
+    return (lines + [f"mconfig P{ui}", f"run {MODEL_FUEL}"] + again + ["reset"] + lines + [f"mconfig R{ui}", f"run {MODEL_FUEL}"] + again)
 
 
 # ---- the oracle's plain queue interpreter (python values, identity of signals) ----------------
@@ -649,9 +938,11 @@ class _TooBig(Exception):
     pass
 
 
-def interpret(case, max_runs=MAX_RUNS):
+def interpret(case, max_runs=MAX_RUNS, state=None, heal=()):
     """One FIFO of pending triggers: start tokens for the starting nodes, then one entry per connection of
-    every emitted signal, newest connection first. Returns None if more than `max_runs` children run."""
+    every emitted signal, newest connection first. Returns None if more than `max_runs` children run.
+    `state` (from an earlier result) + `heal` (children whose `failed` was cleared): the next run of the same graph —
+    outputs, caches, failed flags and attempt counters persist, the FIFO and every all-of memory start empty."""
     nodes = case["nodes"]
     n = len(nodes)
     din = [[[] for _ in nd["own"]] for nd in nodes]  # data connections, newest first
@@ -666,12 +957,15 @@ def interpret(case, max_runs=MAX_RUNS):
             sconn[s].insert(0, r)
         if acc:
             upstream[dst].add(s)
-    out = [ND] * n
-    failed = [False] * n
-    cached = [None] * n
-    attempts = [0] * n
+    if state is None:
+        out, failed, cached, attempts = [ND] * n, [False] * n, [None] * n, [0] * n
+    else:
+        out, failed, cached, attempts = (list(state[k]) for k in ("out", "failed", "cached", "attempts"))
+        for i in heal:
+            failed[i] = False
     seen = [set() for _ in range(n)]
     order, calls = [], []
+    errs = set()
     fifo = deque((None, (i, False)) for i in case["starters"])
     sizes = {}
 
@@ -696,6 +990,7 @@ def interpret(case, max_runs=MAX_RUNS):
             args.append(v)
         ready = (not failed[i]) and all(a is not ND for a in args)
         if not ready:
+            errs.add(i)
             return  # refused: nothing runs, nothing is emitted
         if nd["cache"] and cached[i] is not None and cached[i] == args:
             order.append(i)
@@ -715,6 +1010,7 @@ def interpret(case, max_runs=MAX_RUNS):
             except (TypeError, RuntimeError):
                 failed[i] = True
                 cached[i] = None
+                errs.add(i)
         emitted = [(i, 1)] if failed[i] else [(i, 0)]
         if nd["kind"] == "if" and not failed[i] and out[i] is not ND:  # a failed If decides nothing
             emitted.append((i, 2) if out[i] else (i, 3))
@@ -737,7 +1033,8 @@ def interpret(case, max_runs=MAX_RUNS):
                 run(r)
     except _TooBig:
         return None  # values grow beyond what can be printed: not a case the generator keeps
-    return {"exec": order, "calls": calls, "outs": [canon(v) for v in out], "failed": [i for i in range(n) if failed[i]]}
+    return {"exec": order, "calls": calls, "outs": [canon(v) for v in out], "failed": [i for i in range(n) if failed[i]],
+            "errs": sorted(errs), "state": {"out": out, "failed": failed, "cached": cached, "attempts": attempts}}
 
 
 def as_plain_flow(case, reorder=False):
@@ -775,41 +1072,475 @@ def _matches(impl, exp):
             and impl["outs"] == exp["outs"])
 
 
+def _expected_runs(case, reorder=False):
+    """the plain interpreter for the first run and every re-run (state carried over, listed children healed)"""
+    plain = as_plain_flow(case, reorder=reorder)
+    exps, state = [], None
+    for k in range(1 + len(case.get("rerun", []))):
+        heal = case["rerun"][k - 1]["heal"] if k else ()
+        e = interpret(plain, max_runs=4 * MAX_RUNS, state=state, heal=heal)
+        if e is None:
+            return None
+        exps.append(e)
+        state = e["state"]
+    return exps
+
+
 def _flow_oracle(case, impl):
-    exp = interpret(as_plain_flow(case), max_runs=4 * MAX_RUNS)
+    exps = _expected_runs(case)
+    if exps is None:
+        return []  # the generator never emits such a case; nothing to demand of a non-terminating flow
+    runs = impl.get("runs") or [impl]
     explained = None
-    if case.get("host") == "macro" and exp is not None and impl["outcome"] in ("ok", "failedchild") and not _matches(impl, exp):
-        alt = interpret(as_plain_flow(case, reorder=True), max_runs=4 * MAX_RUNS)
-        if alt is not None and _matches(impl, alt):
+    finished = all(r["outcome"] in ("ok", "failedchild") for r in runs)
+    if case.get("host") == "macro" and finished and not all(_matches(r, e) for r, e in zip(runs, exps)):
+        alt = _expected_runs(case, reorder=True)
+        if alt is not None and all(_matches(r, e) for r, e in zip(runs, alt)):
             explained = "macro-reconnect-reorder"
     kinds = sorted({nd["kind"] for nd in case["nodes"]})
-    sig = lambda clause: {"clause": clause, "trigger": "run", "kinds": kinds,  # noqa: E731
-                          "allof": any(a for (_s, _c, _d, a, _v) in case["sig"]),
-                          "host": case.get("host", "workflow"), "explained_by": explained}
-    if exp is None:
-        return []  # the generator never emits such a case; nothing to demand of a non-terminating flow
     fails = []
+    for k, (r, exp) in enumerate(zip(runs, exps)):
+        sig = lambda clause: {"clause": clause, "trigger": "run" if k == 0 else "rerun", "kinds": kinds,  # noqa: E731,B023
+                              "allof": any(a for (_s, _c, _d, a, _v) in case["sig"]),
+                              "host": case.get("host", "workflow"), "explained_by": explained}
+        tag = "" if k == 0 else f"re-run {k}: "
+        if r["outcome"] not in ("ok", "failedchild"):
+            fails.append({"clause": "flow-did-not-finish", "detail": tag + r["outcome"], "signature": sig("flow-did-not-finish")})
+            return fails
+        if r["exec"] != exp["exec"]:
+            fails.append({"clause": "flow-order",
+                          "detail": f"{tag}provenance_by_execution {r['exec']} but the plain queue interpreter runs {exp['exec']}",
+                          "signature": sig("flow-order")})
+        got_calls = [(t, list(a)) for t, a in r["calls"]]
+        want_calls = [(t, list(a)) for t, a in exp["calls"]]
+        if got_calls != want_calls:
+            j = next((j for j, (a, b) in enumerate(zip(got_calls, want_calls)) if a != b), min(len(got_calls), len(want_calls)))
+            fails.append({"clause": "flow-calls",
+                          "detail": f"{tag}wrapped-function calls differ at #{j}: impl {got_calls[j:j+2]} vs interpreter "
+                                    f"{want_calls[j:j+2]} ({len(got_calls)} vs {len(want_calls)} calls)",
+                          "signature": sig("flow-calls")})
+        if r["outs"] != exp["outs"]:
+            fails.append({"clause": "flow-values", "detail": f"{tag}outputs {r['outs']} vs interpreter {exp['outs']}",
+                          "signature": sig("flow-values")})
+        if r["running"]:
+            fails.append({"clause": "flow-left-running", "detail": tag + str(r["running"]), "signature": sig("flow-left-running")})
+        if fails:
+            break
+    return fails
+
+
+# ============================================================================== two composites
+#
+# case: {"kind": "flow2", "nodes": [...], "owner": [0|1 per node], "data": [...within one scope...],
+#        "sig": [[src, chan, dst, acc, via], ...]  (the macro itself is node number len(nodes); edges with both ends
+#        inside the macro are made by its graph creator, i.e. before all others), "starters": [...W...],
+#        "mstarters": [...children of the macro...]}
+
+
+def _flow2_order(case):
+    """signal edges in the order in which they really get made: the macro's internal ones first"""
+    own = case["owner"]
+    m = len(case["nodes"])
+    inside = lambda e: e[0] != m and e[2] != m and own[e[0]] == 1 and own[e[2]] == 1  # noqa: E731
+    return [e for e in case["sig"] if inside(e)] + [e for e in case["sig"] if not inside(e)]
+
+
+def _flow2_build(case):
+    from pyiron_workflow import Workflow
+
+    from . import nodes_c02 as N
+
+    N.reset()
+    own = case["owner"]
+    n = len(case["nodes"])
+    w_ids = [i for i in range(n) if own[i] == 0]
+    m_ids = [i for i in range(n) if own[i] == 1]
+    wf = Workflow("wf", autoload=None, automate_execution=False)
+    wf.recovery = None
+    ns = [None] * (n + 1)
+
+    def sub(ids, edges, starters):
+        pos = {g: k for k, g in enumerate(ids)}
+        return {"nodes": [case["nodes"][g] for g in ids],
+                "data": [[pos[d], sl, pos[sr]] for d, sl, sr in case["data"] if d in pos and sr in pos],
+                "sig": [[pos[a], c, pos[b], acc, via] for a, c, b, acc, via in edges], "starters": [pos[g] for g in starters]}
+
+    order = _flow2_order(case)
+    inner_edges = [e for e in order if e[0] != n and e[2] != n and own[e[0]] == 1 and own[e[2]] == 1]
+    # children are created one by one with their global number as label / tag
+    for g in w_ids:
+        one = sub([g], [], [])
+        ns[g] = N.build_flow(wf, one, offset=g)[0]
+    inner = sub(m_ids, inner_edges, case["mstarters"])
+    inner["offsets"] = m_ids
+    N.MACRO_SPEC[:] = [inner]
+    mac = N.FlowMacroG(label="m")
+    mac.use_cache = False
+    mac.recovery = None
+    wf.add_child(mac)
+    for g, nd in zip(m_ids, N.BUILT["ns"]):
+        ns[g] = nd
+    ns[n] = mac
+    for d, sl, sr in case["data"]:
+        if own[d] == 0 and own[sr] == 0:
+            lab = N.SLOTS[case["nodes"][d]["kind"]][sl]
+            ns[d].inputs[lab].connect(ns[sr].outputs[N.OUT[case["nodes"][sr]["kind"]]])
+    for e in order:
+        if e in inner_edges:
+            continue
+        N.connect_signal(ns[e[0]], e[1], ns[e[2]], e[3], e[4])
+    wf.starting_nodes = [ns[i] for i in case["starters"]]
+    return N, wf, mac, ns
+
+
+def _run_flow2(case):
+    import pyiron_workflow.nodes.composite as comp_mod
+    from pyiron_workflow.node import Node
+    from pyiron_workflow.nodes.composite import Composite, FailedChildError
+
+    N, wf, mac, ns = _flow2_build(case)
+    n = len(case["nodes"])
+    idx = {id(x): i for i, x in enumerate(ns)}
+    fired, starts, depth, tripped = [], [0], [0], [False]
+    orig_run, orig_starting, orig_sleep = Node.run, Composite.register_child_starting, comp_mod.sleep
+
+    def run(self, *a, **k):
+        i = idx.get(id(self))
+        if i is None:
+            return orig_run(self, *a, **k)
+        if tripped[0] or depth[0] >= 4 * RUNAWAY_DEPTH:
+            tripped[0] = True
+            raise Runaway()
+        fired.append(i)
+        depth[0] += 1
+        try:
+            return orig_run(self, *a, **k)
+        finally:
+            depth[0] -= 1
+
+    def starting(self, child):
+        starts[0] += 1
+        if tripped[0] or starts[0] > RUNAWAY_STARTS:
+            tripped[0] = True
+            raise Runaway()
+        return orig_starting(self, child)
+
+    def no_sleep(_t):
+        tripped[0] = True
+        raise Runaway()
+
+    hyp = _wf_hypothesis(ns)
+    outcome = "ok"
+    collected = []  # children whose run() raised into the WORKFLOW's loop (delegating wrapper on the collecting method)
+    orig_collect = Composite._collect_child_error
+
+    def collect(self, errors, accounted_for, child, error, n_started_before):
+        if self is wf:
+            collected.append(idx.get(id(child), 999))
+        return orig_collect(self, errors, accounted_for, child, error, n_started_before)
+
+    Node.run, Composite.register_child_starting, comp_mod.sleep = run, starting, no_sleep
+    Composite._collect_child_error = collect
+    try:
+        wf.run()
+    except FailedChildError:
+        outcome = "failedchild"
+    except Runaway:
+        outcome = "runaway"
+    except Exception as e:  # noqa: BLE001
+        outcome = f"raised:{type(e).__name__}:{str(e)[:200]}"
+    finally:
+        Node.run, Composite.register_child_starting, comp_mod.sleep = orig_run, orig_starting, orig_sleep
+        Composite._collect_child_error = orig_collect
+    errs = sorted(set(collected))
+    calls = [(t, [canon(x) for x in a]) for (t, a) in N.CALL_LOG]
+    outs = [canon(ns[i].outputs[N.OUT[case["nodes"][i]["kind"]]].value) for i in range(n)]
+    failed = [i for i in range(n + 1) if ns[i].failed]
+    labid = {}
+    for i, x in enumerate(ns):
+        for c, name in enumerate(CH):
+            labid[f"{x.label}__{name}"] = _sig(i, c)
+    rec = []
+    for i in range(n + 1):
+        a = ns[i].signals.input.accumulate_and_run
+        if len(a.connections) > 0:
+            rec.append(f"{i}:{nats(sorted(labid.get(x if isinstance(x, str) else x.scoped_label, 9999) for x in a.received_signals))}")
+    obs = [
+        f"wf {1 if hyp else 0}",
+        f"fired {nats(fired)}",
+        "calls " + dash([f"{t}({','.join(a)})" for t, a in calls]),
+        "out " + dash([f"{i}={outs[i]}" for i in range(n)]),
+        f"failed {nats(failed)}",
+        f"errs {nats(errs)}",
+        f"queue {len(wf.signal_queue)} {len(mac.signal_queue)}",
+        "rec " + dash(rec),
+    ]
+    if outcome not in ("ok", "failedchild"):
+        obs.append(f"outcome {outcome}")
+    own = case["owner"]
+    cross = sum(1 for a, _c, b, _acc, _v in case["sig"] if a != n and b != n and own[a] != own[b])
+    stats = {"flow2": 1, "flow2_child_runs": len(fired), "flow2_cross_edges": cross,
+             "flow2_macro_runs": fired.count(n), "flow2_with_failure": 1 if failed else 0,
+             f"flow2_outcome:{outcome.split(':')[0]}": 1}
+    return {"obs": obs, "outcome": outcome, "fired": fired, "calls": calls, "outs": outs, "failed": failed, "errs": errs,
+            "stats": stats, "running": [i for i in range(n + 1) if ns[i].running]}
+
+
+def _flow2_model_input(case):
+    n = len(case["nodes"])
+    lines = []
+    for i, nd in enumerate(case["nodes"]):
+        fl = ",".join(str(x) for x in nd.get("fail", [])) or "-"
+        lines.append(f"node {i} {nd['kind']} {1 if nd['cache'] else 0} {fl}")
+        for tok in nd["own"]:
+            lines.append(f"slot {i} {tok}")
+    lines.append(f"node {n} term 0 -")
+    for i, o in enumerate(case["owner"]):
+        if o:
+            lines.append(f"owner {i} 1")
+    lines.append(f"macro {n}")
+    for dst, slot, src in case["data"]:
+        lines.append(f"dconn {dst} {slot} {src}")
+    for src, c, dst, acc, _via in _flow2_order(case):
+        lines.append(f"sconn {_sig(src, c)} {dst} {1 if acc else 0}")
+    lines.append("starters " + " ".join(str(i) for i in case["starters"]))
+    lines.append("mstarters " + " ".join(str(i) for i in case["mstarters"]))
+    lines.append(f"run2 {MODEL_FUEL} {MODEL_FUEL}")
+    return lines
+
+
+class _Raised(Exception):
+    pass
+
+
+def interpret2(case, max_runs=MAX_RUNS, max_depth=10):
+    """The plain TWO-queue interpretation: every composite has its own FIFO; a child that finishes hands its signals to
+    its parent's FIFO if the parent is active and otherwise serves its receivers at once, in connection order, an
+    exception in there leaving the child's run; all-of receivers remember emitter IDENTITIES. Returns None when the
+    case runs away (more than max_runs runs or deeper than max_depth nested runs)."""
+    nodes = case["nodes"]
+    n = len(nodes)
+    own = list(case["owner"]) + [0]
+    din = [[[] for _ in nd["own"]] for nd in nodes]
+    for dst, slot, src in case["data"]:
+        if src not in din[dst][slot]:
+            din[dst][slot].insert(0, src)
+    sconn, upstream = {}, [set() for _ in range(n + 1)]
+    for src, c, dst, acc, _via in _flow2_order(case):
+        sg, r = (src, c), (dst, bool(acc))
+        if r not in sconn.setdefault(sg, []):
+            sconn[sg].insert(0, r)
+        if acc:
+            upstream[dst].add(sg)
+    out, failed, attempts = [ND] * n, [False] * (n + 1), [0] * n
+    seen = [set() for _ in range(n + 1)]
+    fired, calls = [], []
+    q = {0: deque(), 1: deque()}
+    active = {0: True, 1: False}
+    depth = [0]
+    sizes = {}
+
+    def size(v):
+        if type(v) not in (tuple, list):
+            return 1
+        k = id(v)
+        if k not in sizes:
+            sizes[k] = (v, 1 + sum(size(x) for x in v))
+        return sizes[k][1]
+
+    def emit(i, sigs):
+        pairs = [(sg, r) for sg in sigs for r in sconn.get(sg, [])]
+        if active[own[i]]:
+            q[own[i]].extend(pairs)
+        else:
+            for sg, r in pairs:
+                serve(sg, r)
+
+    def serve(sg, r):
+        dst, acc = r
+        if acc:
+            seen[dst].add(sg)
+            if not upstream[dst] <= seen[dst]:
+                return
+            seen[dst] = set()
+        run(dst)
+
+    def run(i):
+        fired.append(i)
+        if len(fired) > max_runs or depth[0] > max_depth:
+            raise _TooBig
+        depth[0] += 1
+        try:
+            if i == n:
+                run_macro()
+            else:
+                run_leaf(i)
+        finally:
+            depth[0] -= 1
+
+    def run_leaf(i):
+        nd = nodes[i]
+        args = []
+        for k, tok in enumerate(nd["own"]):
+            v = tok_to_py(tok)
+            for src in din[i][k]:
+                if out[src] is not ND:
+                    v = out[src]
+                    break
+            args.append(v)
+        if failed[i] or any(a is ND for a in args):
+            raise _Raised
+        attempts[i] += 1
+        calls.append((i, [canon(a) for a in args]))
+        boom = False
+        try:
+            if attempts[i] in nd.get("fail", []):
+                raise RuntimeError
+            out[i] = _py_eval(nd["kind"], i, args)
+            if size(out[i]) > MAX_VALUE_SIZE:
+                raise _TooBig
+        except (TypeError, RuntimeError):
+            failed[i] = True
+            boom = True
+        sigs = [(i, 1)] if failed[i] else [(i, 0)]
+        if nd["kind"] == "if" and not failed[i] and out[i] is not ND:
+            sigs.append((i, 2) if out[i] else (i, 3))
+        emit(i, sigs)
+        if boom:
+            raise _Raised
+
+    def run_macro():
+        if failed[n] or active[1]:
+            raise _Raised
+        active[1] = True
+        q[1].clear()
+        for i in range(n):
+            if own[i] == 1:
+                seen[i] = set()
+        bad = False
+        for i in case["mstarters"]:
+            try:
+                run(i)
+            except _Raised:
+                bad = True
+        while q[1]:
+            sg, r = q[1].popleft()
+            try:
+                serve(sg, r)
+            except _Raised:
+                bad = True
+        active[1] = False
+        failed[n] = bad
+        emit(n, [(n, 1)] if bad else [(n, 0)])
+        if bad:
+            raise _Raised
+
+    errs = set()
+    try:
+        for i in case["starters"]:
+            try:
+                run(i)
+            except _Raised:
+                errs.add(i)
+        while q[0]:
+            sg, r = q[0].popleft()
+            try:
+                serve(sg, r)
+            except _Raised:
+                errs.add(r[0])
+    except _TooBig:
+        return None
+    return {"fired": fired, "calls": calls, "outs": [canon(v) for v in out], "failed": [i for i in range(n + 1) if failed[i]],
+            "errs": sorted(errs)}
+
+
+def _flow2_oracle(case, impl):
+    exp = interpret2(case, max_runs=4 * MAX_RUNS, max_depth=40)
+    if exp is None:
+        return []
+    own = case["owner"]
+    n = len(case["nodes"])
+    sig = lambda clause: {"clause": clause, "trigger": "run", "host": "workflow+macro",  # noqa: E731
+                          "cross": any(a != n and b != n and own[a] != own[b] for a, _c, b, _acc, _v in case["sig"])}
     if impl["outcome"] not in ("ok", "failedchild"):
-        fails.append({"clause": "flow-did-not-finish", "detail": impl["outcome"], "signature": sig("flow-did-not-finish")})
-        return fails
-    if impl["exec"] != exp["exec"]:
-        fails.append({"clause": "flow-order",
-                      "detail": f"provenance_by_execution {impl['exec']} but the plain queue interpreter runs {exp['exec']}",
-                      "signature": sig("flow-order")})
+        return [{"clause": "flow-did-not-finish", "detail": impl["outcome"], "signature": sig("flow-did-not-finish")}]
+    fails = []
     got_calls = [(t, list(a)) for t, a in impl["calls"]]
     want_calls = [(t, list(a)) for t, a in exp["calls"]]
+    if impl["fired"] != exp["fired"]:
+        fails.append({"clause": "flow-order",
+                      "detail": f"run() invocations (all scopes) {impl['fired']} but the plain two-queue interpreter runs {exp['fired']}",
+                      "signature": sig("flow-order")})
     if got_calls != want_calls:
-        k = next((j for j, (a, b) in enumerate(zip(got_calls, want_calls)) if a != b), min(len(got_calls), len(want_calls)))
-        fails.append({"clause": "flow-calls",
-                      "detail": f"wrapped-function calls differ at #{k}: impl {got_calls[k:k+2]} vs interpreter {want_calls[k:k+2]} "
-                                f"({len(got_calls)} vs {len(want_calls)} calls)",
-                      "signature": sig("flow-calls")})
+        j = next((j for j, (a, b) in enumerate(zip(got_calls, want_calls)) if a != b), min(len(got_calls), len(want_calls)))
+        fails.append({"clause": "flow-calls", "detail": f"wrapped-function calls differ at #{j}: impl {got_calls[j:j+2]} vs "
+                                                        f"interpreter {want_calls[j:j+2]}", "signature": sig("flow-calls")})
     if impl["outs"] != exp["outs"]:
         fails.append({"clause": "flow-values", "detail": f"outputs {impl['outs']} vs interpreter {exp['outs']}",
                       "signature": sig("flow-values")})
     if impl["running"]:
         fails.append({"clause": "flow-left-running", "detail": str(impl["running"]), "signature": sig("flow-left-running")})
     return fails
+
+
+def _gen_flow2(rng):
+    """a workflow with 2–5 own children and a macro child with 2–4 children (term / if nodes, caches off), each level
+    hand-wired (chains, fan-out, all-of joins, If branches, the macro inside a loop of the workflow), plus 0–3 signal
+    connections across the boundary in either direction; kept when the two-queue interpreter finishes"""
+    for _ in range(60):
+        nw, nm = rng.randint(2, 5), rng.randint(2, 4)
+        n = nw + nm
+        own = [0] * nw + [1] * nm
+        nodes = []
+        for i in range(n):
+            if rng.random() < 0.2:
+                nodes.append(_node("if", [rng.choice(["bT", "bF", "n1", "n0"])], cache=False,
+                                   fail=[rng.randint(1, 2)] if rng.random() < 0.1 else ()))
+            else:
+                nodes.append(_node("term", ["d", "d", "d"], cache=False, fail=[rng.randint(1, 2)] if rng.random() < 0.1 else ()))
+        w_ids, m_ids = list(range(nw)), list(range(nw, n))
+        m = n
+
+        def chan(src):
+            if src != m and nodes[src]["kind"] == "if" and rng.random() < 0.6:
+                return rng.choice([2, 3])
+            return 0 if rng.random() < 0.9 else 1
+
+        sig = []
+        # inside the macro: a chain through its children plus extras
+        for a, b in zip(m_ids, m_ids[1:]):
+            sig.append(_s(rng, a, chan(a), b, acc=0))
+        for _ in range(rng.randint(0, 2)):
+            a, b = rng.choice(m_ids), rng.choice(m_ids[1:])
+            sig.append(_s(rng, a, chan(a), b, acc=rng.random() < 0.3))
+        # the workflow level: its children and the macro in some order
+        level = w_ids[1:] + [m]
+        rng.shuffle(level)
+        prev = w_ids[0]
+        for x in level:
+            src = prev if rng.random() < 0.7 else rng.choice([w_ids[0], *level])
+            sig.append(_s(rng, src, chan(src), x, acc=rng.random() < 0.25))
+            prev = x
+        for _ in range(rng.randint(0, 2)):
+            a, b = rng.choice([*w_ids, m]), rng.choice(level)
+            sig.append(_s(rng, a, chan(a), b, acc=rng.random() < 0.3))
+        # across the boundary
+        for _ in range(rng.randint(0, 3)):
+            if rng.random() < 0.5:
+                a, b = rng.choice(m_ids), rng.choice(w_ids[1:] or w_ids)
+            else:
+                a, b = rng.choice(w_ids), rng.choice(m_ids)
+            sig.append(_s(rng, a, chan(a), b, acc=rng.random() < 0.25))
+        data = []
+        for ids in (w_ids, m_ids):
+            for i in ids:
+                if nodes[i]["kind"] == "term" and rng.random() < 0.4:
+                    data.append([i, rng.randrange(3), rng.choice(ids)])
+        case = {"kind": "flow2", "nodes": nodes, "owner": own, "data": data, "sig": sig, "starters": [w_ids[0]],
+                "mstarters": [m_ids[0]] + ([rng.choice(m_ids)] if rng.random() < 0.2 else [])}
+        if interpret2(case) is not None:
+            return case
+    return None
 
 
 # ============================================================================== cross-scope (implementation only)
@@ -867,6 +1598,10 @@ def run_impl(case):
         return {"obs": ["bad-op"] * len(case["lines"]), "stats": {"malformed_lines": len(case["lines"])}}
     if case["kind"] == "xscope":
         return _run_xscope(case)
+    if case["kind"] == "cbtrig":
+        return _run_cbtrig(case)
+    if case["kind"] == "flow2":
+        return _run_flow2(case)
     raise ValueError(case["kind"])
 
 
@@ -877,6 +1612,10 @@ def model_input(case, impl):
         return _flow_model_input(case)
     if case["kind"] == "xscope":
         return []  # two scopes, two queues: outside the single-composite model; oracle only
+    if case["kind"] == "cbtrig":
+        return _cbtrig_model_input(case)
+    if case["kind"] == "flow2":
+        return _flow2_model_input(case)
     return list(case["lines"])
 
 
@@ -891,7 +1630,7 @@ def _first_diff(view, model):
 
 def diff(case, impl, model):
     view = impl["obs"]
-    if case["kind"] != "trig" and not (case["kind"] == "flow" and case.get("host") == "macro"):
+    if case["kind"] not in ("trig", "cbtrig") and not (case["kind"] == "flow" and case.get("host") == "macro"):
         return _first_diff(view, model)
     if "reset" not in model:
         return {"index": -1, "impl": "two model variants expected", "model": model[:2]}
@@ -917,14 +1656,22 @@ def oracle(case, impl):
         return _flow_oracle(case, impl)
     if case["kind"] == "xscope":
         return _xscope_oracle(case, impl)
+    if case["kind"] == "cbtrig":
+        return _cbtrig_oracle(case, impl)
+    if case["kind"] == "flow2":
+        return _flow2_oracle(case, impl)
     return []
 
 
 def nontrivial(case, impl):
     if case["kind"] == "trig":
         return impl.get("both", 0) > 0
+    if case["kind"] == "cbtrig":
+        return impl["stats"]["cb_raised"] + impl["stats"]["cb_reentered"] > 0
     if case["kind"] == "flow":
         return len(impl.get("exec", [])) >= 3
+    if case["kind"] == "flow2":
+        return len(impl.get("fired", [])) >= 4
     return False
 
 
@@ -934,11 +1681,16 @@ VIA_ACC = ["t.connect", "s.connect", "s>>t", "t<<s", "node<<s"]
 VIA_ANY = ["t.connect", "s.connect", "s>>t", "s>>node"]
 
 
-def _rand_hist(rng, n_em, length, rich=True):
+def _rand_hist(rng, n_em, length, rich=True, raising=False):
+    """`raising`: only the all-of trigger is used and its owner is made to refuse (input without data) or to fail
+    (function raises; the owner stays failed until healed) now and then — its run() is invoked all the same"""
     hist = []
     for _ in range(length):
         r = rng.random()
-        t = "acc" if rng.random() < 0.7 else "any"
+        t = "acc" if raising or rng.random() < 0.7 else "any"
+        if raising and rng.random() < 0.2:
+            hist.append([rng.choice(["unready", "ready", "failnext", "heal", "ready", "heal"]), "acc"])
+            continue
         e = rng.randrange(n_em)
         c = 0 if rng.random() < 0.8 else 1
         if r < 0.25:
@@ -1226,6 +1978,32 @@ def _with_stale_memory(rng, case):
     return {**case, "pre": pre} if pre else case
 
 
+def _with_reruns(rng, case):
+    """if the run reports errors (a child failed or refused): up to two further runs, before each of which the user clears
+    `failed` on some or all failed children (and on the composite). Kept only if every run terminates on both wirings."""
+    best = case
+    for reorder in (False,):
+        cur = dict(case)
+        cur["rerun"] = []
+        exps = _expected_runs(cur)
+        if exps is None:
+            return case
+        for _ in range(rng.choice([1, 1, 2])):
+            last = exps[-1]
+            if not last["errs"]:
+                break
+            failed = last["failed"]
+            heal = failed if rng.random() < 0.6 else rng.sample(failed, rng.randint(0, len(failed)))
+            trial = {**cur, "rerun": cur["rerun"] + [{"heal": sorted(heal)}]}
+            exps2 = _expected_runs(trial)
+            if exps2 is None or (trial.get("host") == "macro" and _expected_runs(trial, reorder=True) is None):
+                break
+            cur, exps = trial, exps2
+        if cur["rerun"]:
+            best = cur
+    return best
+
+
 def _gen_flow(rng):
     for _ in range(50):
         case = rng.choice(TEMPLATES)(rng)
@@ -1236,7 +2014,7 @@ def _gen_flow(rng):
         if rng.random() < 0.35:
             case = _with_stale_memory(rng, case)
         if _valid_flow(case) and _terminates(case):
-            return case
+            return _with_reruns(rng, case)
     return _tpl_chain(rng)
 
 
@@ -1282,9 +2060,9 @@ MALFORMED = {"kind": "malformed", "lines": [
 def gen_cases(rng, tier):
     yield MALFORMED
     if tier == "quick":
-        n_trig, per, n_flow = 160, 10, 700
+        n_trig, per, n_flow = 120, 10, 520
     else:
-        n_trig, per, n_flow = 600, 12, 6000
+        n_trig, per, n_flow = 500, 12, 4200
     for _ in range(n_trig):
         n_em = rng.randint(2, 3)
         parent = rng.random() < 0.3
@@ -1292,20 +2070,56 @@ def gen_cases(rng, tier):
             labels = rng.sample(range(4), n_em)
         else:
             labels = [rng.randrange(2) for _ in range(n_em)]  # parentless nodes may share a label
-        hists = [_rand_hist(rng, n_em, rng.randint(3, 14 if tier == "quick" else 40)) for _ in range(per)]
+        raising = rng.random() < 0.3
+        hists = [_rand_hist(rng, n_em, rng.randint(3, 14 if tier == "quick" else 40), raising=raising) for _ in range(per)]
         yield {"kind": "trig", "labels": labels, "parent": parent, "hists": hists}
+    for _ in range(n_trig // 2):
+        n_em = rng.randint(2, 3)
+        labels = rng.sample(range(4), n_em) if rng.random() < 0.85 else [rng.randrange(2) for _ in range(n_em)]
+        scripts = [[_rand_act(rng, n_em, 0) for _ in range(rng.randint(3, 10 if tier == "quick" else 25))] for _ in range(per)]
+        yield {"kind": "cbtrig", "labels": labels, "scripts": scripts}
     for _ in range(n_flow):
         yield _gen_flow(rng)
+    for _ in range(n_flow // 3):
+        c = _gen_flow2(rng)
+        if c is not None:
+            yield c
     if tier == "thorough":
-        for b in _batches(_exhaustive_hists(3, 6), 2000):
+        for b in _batches(_exhaustive_hists(3, 6), 500):
             yield {"kind": "trig", "labels": [0, 1, 2], "parent": False, "hists": b}
-        for b in _batches(_exhaustive_hists(3, 5), 2000):
+        for b in _batches(_exhaustive_hists(3, 4), 500):
             yield {"kind": "trig", "labels": [0, 0, 1], "parent": False, "hists": b}
-        for b in _batches(_exhaustive_hists(2, 6), 2000):
+        for b in _batches(_exhaustive_hists(2, 5), 500):
             yield {"kind": "trig", "labels": [0, 1], "parent": True, "hists": b}
+        for b in _batches(_exhaustive_scripts(2, 4), 500):
+            yield {"kind": "cbtrig", "labels": [0, 1], "scripts": b}
 
 
 def corpus():
+    # two composites (C02 two_composites example): W = {0, 1, 2, macro 5 = {3 >> 4}}; 0 >> m >> 1; 4 >> 2 out of the running
+    # macro, 1 >> 3 into the idle macro (3, 4 run depth-first and reach 2 again)
+    t = lambda: _node("term", ["d", "d", "d"], cache=False)  # noqa: E731
+    yield {"kind": "flow2", "nodes": [t(), t(), t(), t(), t()], "owner": [0, 0, 0, 1, 1], "data": [],
+           "sig": [[3, 0, 4, 0, "rshift"], [0, 0, 5, 0, "rshift"], [5, 0, 1, 0, "rshift"], [4, 0, 2, 0, "connect"],
+                   [1, 0, 3, 0, "connect"]], "starters": [0], "mstarters": [3]}
+    # a child of the macro fails: the macro fails and emits `failed` outward; a later delivery into the failed macro's child
+    yield {"kind": "flow2", "nodes": [t(), t(), t(), _node("term", ["d", "d", "d"], cache=False, fail=[1]), t()],
+           "owner": [0, 0, 0, 1, 1], "data": [],
+           "sig": [[3, 0, 4, 0, "rshift"], [3, 1, 4, 0, "connect"], [0, 0, 5, 0, "rshift"], [5, 1, 1, 0, "connect"], [5, 0, 2, 0, "rshift"],
+                   [1, 0, 3, 0, "connect"], [1, 0, 5, 0, "connect"]], "starters": [0], "mstarters": [3]}
+    # seeded change C02-1 (callback before reset): a complete round whose callback raises, then one of two, two of two
+    yield {"kind": "cbtrig", "labels": [0, 1], "scripts": [
+        [[["C", 0, "t.connect"], False, []], [["C", 1, "t<<s"], False, []], [["A", 0], False, []], [["A", 1], True, []],
+         [["A", 1], False, []], [["A", 0], False, []], [["A", 0], False, []]],
+        # ... and a callback that hears `a` again while it runs (depth-first self loop): that arrival belongs to the next round
+        [[["C", 0, "t.connect"], False, []], [["C", 1, "t.connect"], False, []], [["A", 0], False, []],
+         [["A", 1], False, [[["A", 0], False, [[["P"], True, []]]]]], [["A", 1], False, []], [["A", 1], False, []]]]}
+    # node level (the demo of C02-1): join << (a, b); round 1 completes while the join has no data for an input (refusal);
+    # data arrives; round 2 must wait for a AND b again; then the join's function fails once, the failed join refuses, is healed
+    yield {"kind": "trig", "labels": [0, 1], "parent": False, "hists": [
+        [["connect", "acc", 0, 0, "node<<node"], ["connect", "acc", 1, 0, "node<<node"], ["unready", "acc"], ["run", 0, False],
+         ["run", 1, False], ["ready", "acc"], ["run", 0, False], ["run", 1, False], ["failnext", "acc"], ["run", 0, False],
+         ["run", 1, False], ["run", 1, False], ["run", 0, False], ["heal", "acc"], ["run", 0, False], ["run", 1, False]]]}
     # a hand-wired macro: children a, b, c; `a >> c` then `a >> b` (b is the newest receiver); start a.
     # As written: a, b, c (what the same wiring does in a workflow). The pinned macro re-makes the connections: a, c, b
     abc = {"kind": "flow", "nodes": [_node("term", ["d", "d", "d"]) for _ in range(3)], "data": [],
@@ -1316,6 +2130,11 @@ def corpus():
     yield {"kind": "flow", "nodes": [_node("term", ["d", "d", "d"]) for _ in range(4)], "data": [],
            "sig": [[0, 0, 1, 0, "rshift"], [1, 0, 2, 0, "rshift"], [1, 0, 3, 1, "lshift"], [2, 0, 3, 1, "lshift"]],
            "starters": [0], "pre": [[2, 0, 3]]}
+    # re-run after a failure (C02_rerun_stale_memory_witness): 0 >> 1 >> 4, 0 >> 2, 3 << (4, 2); 2 fails in run 1, the join has
+    # heard 4.ran; healed and run again the join must wait for 4 AND 2 of THIS run
+    yield {"kind": "flow", "nodes": [_node("term", ["d", "d", "d"], fail=[1] if i == 2 else ()) for i in range(5)], "data": [],
+           "sig": [[0, 0, 1, 0, "rshift"], [0, 0, 2, 0, "rshift"], [1, 0, 4, 0, "rshift"], [2, 0, 3, 1, "lshift"], [4, 0, 3, 1, "lshift"]],
+           "starters": [0], "rerun": [{"heal": [2]}]}
     # a macro input feeding two children: its UI node runs first, the hand-named starting node waits for it
     yield {"kind": "flow", "host": "macro", "ui": True, "nodes": [_node("term", ["d", "d", "d"]) for _ in range(3)],
            "data": [[0, 0, 3], [1, 1, 3], [2, 0, 1]], "sig": [[0, 0, 1, 0, "rshift"], [1, 0, 2, 1, "lshift"], [0, 0, 2, 1, "lshift"]],
@@ -1364,6 +2183,27 @@ def shrink_candidates(case):
         h = case["hists"][0]
         for k in range(len(h) - 1, -1, -1):
             yield {**case, "hists": [h[:k] + h[k + 1:]]}
+    elif case["kind"] == "flow2":
+        own, n = case["owner"], len(case["nodes"])
+        for k in range(len(case["sig"])):
+            c = {**case, "sig": case["sig"][:k] + case["sig"][k + 1:]}
+            if any(e[0] != n and e[2] != n and own[e[0]] == 1 and own[e[2]] == 1 for e in c["sig"]) and interpret2(c) is not None:
+                yield c
+        for k in range(len(case["data"])):
+            c = {**case, "data": case["data"][:k] + case["data"][k + 1:]}
+            if interpret2(c) is not None:
+                yield c
+    elif case["kind"] == "cbtrig":
+        if len(case["scripts"]) > 1:
+            for sc in case["scripts"]:
+                yield {**case, "scripts": [sc]}
+            return
+        sc = case["scripts"][0]
+        for k in range(len(sc) - 1, -1, -1):
+            yield {**case, "scripts": [sc[:k] + sc[k + 1:]]}
+        for k, act in enumerate(sc):
+            if act[2]:
+                yield {**case, "scripts": [sc[:k] + [[act[0], act[1], []]] + sc[k + 1:]]}
     elif case["kind"] == "flow":
         for k in range(len(case["sig"])):
             c = {**case, "sig": case["sig"][:k] + case["sig"][k + 1:]}
@@ -1377,3 +2217,5 @@ def shrink_candidates(case):
             yield {**case, "starters": case["starters"][:1]}
         if case.get("pre"):
             yield {k: v for k, v in case.items() if k != "pre"}
+        if case.get("rerun"):
+            yield {**case, "rerun": case["rerun"][:-1]}
